@@ -1,6 +1,8 @@
 /-
   NB.Model.AsmDefs — instruction subset of the two inline-asm loops (import-free).
   Registers are numbered by their position in the asm! operand list (see NB.Gen.AsmProg).
+  Memory operands address 64-bit digits: `[{base} + 8*{idx} + 8*off]` is digit `idx + off`
+  behind pointer `base`; the `…n` forms have no index register (`[{base} + 8*off]`).
 -/
 namespace NB.Asm
 
@@ -17,6 +19,24 @@ inductive Instr where
   | dec (r : Nat)
   | jnz (n : Nat)
   | setc (r : Nat)
+  /-- `mov {dst}, qword ptr [{base} + 8*off]` (no index register) -/
+  | loadn (dst base off : Nat)
+  /-- `mov qword ptr [{base} + 8*off], {src}` (no index register) -/
+  | storen (base off src : Nat)
+  /-- `adc {dst}, qword ptr [{base} + 8*{idx} + 8*off]` -/
+  | adcm (dst base idx off : Nat)
+  /-- `sbb {dst}, qword ptr [{base} + 8*{idx} + 8*off]` -/
+  | sbbm (dst base idx off : Nat)
+  /-- `adc {dst}, qword ptr [{base} + 8*off]` -/
+  | adcmn (dst base off : Nat)
+  /-- `sbb {dst}, qword ptr [{base} + 8*off]` -/
+  | sbbmn (dst base off : Nat)
+  /-- `lea {dst}, [{src} + imm]`: `dst := src + imm`, no flag is touched -/
+  | lea (dst src imm : Nat)
+  /-- `add {r}, imm`: writes CF and ZF -/
+  | addi (r imm : Nat)
+  /-- `sub {r}, imm`: writes CF and ZF -/
+  | subi (r imm : Nat)
   deriving DecidableEq, Repr, Inhabited
 
 end NB.Asm
